@@ -78,7 +78,10 @@ def mk_res(kind, rev, log):
     names = list(NEEDS[kind])
     if rev:
         names.reverse()
-    src = "def res(%s):\n    _log.append({k: v for k, v in locals().items()})\n    return %s\n" % (", ".join(names), BODY[kind])
+    sig = list(names)
+    if sig[-1] in ("f", "g"):          # an input / data function taken with a python DEFAULT (def residual(u, f=0.0)): still supplied by name
+        sig[-1] += "=0.0"
+    src = "def res(%s):\n    _log.append({k: v for k, v in locals().items()})\n    return %s\n" % (", ".join(sig), BODY[kind])
     ns = {"_log": log, "_torch": torch, "_grad": tp.utils.grad}
     exec(src, ns)
     return ns["res"]
